@@ -269,6 +269,8 @@ class Model:
         index updates below, to and beyond the container's size."""
         r = self.rnd
         ops = []
+        if r.random() < 0.3:
+            return self.gen_toggle()
         if r.random() < 0.5 and self.secs:
             s = r.choice(list(self.secs))
             ivs = self.ivs_of_sec(s)
@@ -330,6 +332,53 @@ class Model:
                 gone.add(o["id"])
             out.append(o)
         return out
+
+    def gen_toggle(self):
+        """The same edit repeated: an attribute alternating between two
+        values, or a member removed, re-added and removed again - queues
+        identical index updates several times between two lookups."""
+        r = self.rnd
+        ops = []
+        n = r.randint(2, 5)
+        k = r.randrange(4)
+        attached = [b for b, v in self.blks.items() if v["iv"]]
+        placed = [i for i, v in self.ivs.items() if v["sec"]]
+        if k == 0 and attached:
+            b = r.choice(attached)
+            f = r.choice(["off", "size"])
+            vals = [self.blks[b][f], self.off() if f == "off"
+                    else self.bsize()]
+            for j in range(n):
+                ops.append({"op": "blk_" + f, "id": b, f: vals[(j + 1) % 2]})
+        elif k == 1 and placed:
+            i = r.choice(placed)
+            f = r.choice(["addr", "addr", "size"])
+            cur = self.ivs[i][f]
+            other = self.addr() if f == "addr" else self.isize()
+            if f == "addr" and other is None and cur is None:
+                other = r.randint(0, 30)
+            vals = [cur, other]
+            for j in range(n):
+                ops.append({"op": "iv_" + f, "id": i, f: vals[(j + 1) % 2]})
+        elif k == 2 and attached:
+            b = r.choice(attached)
+            iv = self.blks[b]["iv"]
+            for j in range(n):
+                if j % 2 == 0:
+                    ops.append({"op": "rm_blk", "id": b, "via": "discard"})
+                else:
+                    ops.append({"op": "mv_blk", "id": b, "iv": iv,
+                                "via": r.choice(["attr", "add", "update"])})
+        elif placed:
+            i = r.choice(placed)
+            s = self.ivs[i]["sec"]
+            for j in range(n):
+                if j % 2 == 0:
+                    ops.append({"op": "rm_iv", "id": i, "via": "discard"})
+                else:
+                    ops.append({"op": "mv_iv", "id": i, "sec": s,
+                                "via": r.choice(["attr", "add", "update"])})
+        return ops
 
     def new_expr(self):
         self.nexpr += 1
@@ -1058,6 +1107,8 @@ def run_history(ctx, case, gt, prop, nops, regime=None, focus=None,
             batch = [model.gen_edit(allow_pop=True, focus=focus)]
         for op in batch:
             if op["op"] == "rm_iv" and not model.ivs[op["id"]]["sec"]:
+                continue
+            if op["op"] == "rm_blk" and not model.blks[op["id"]]["iv"]:
                 continue
             do(op)
             if op["op"] in ("blk_off", "blk_size", "iv_addr", "iv_size",
